@@ -143,15 +143,20 @@ impl InputList {
         let mut src_line = 1;
         let mut indent = 0;
         let mut index = 0;
+        // a DOCTYPE may declare entities, so only without one is an unknown name an error
+        let mut has_doctype = false;
         loop {
             let ev = reader.read_event_into(&mut buf);
             let event_lines = if let Ok(ok_ev) = ev.clone() {
                 // names, text and CDATA are all held as strings from here on
                 let content = String::from_utf8(ok_ev.as_ref().to_vec())?;
+                if matches!(ok_ev, Event::DocType(_)) {
+                    has_doctype = true;
+                }
                 if matches!(ok_ev, Event::Text(_) | Event::Start(_) | Event::Empty(_)) {
-                    if let Some(r) = invalid_char_ref(&content) {
+                    if let Some(r) = invalid_reference(&content, has_doctype) {
                         return Err(SvgdxError::ParseError(format!(
-                            "XML error near line {src_line}: '&#{r};' is not a character XML can contain"
+                            "XML error near line {src_line}: '{r}' is not a reference XML allows"
                         )));
                     }
                 }
@@ -536,28 +541,58 @@ impl IntoIterator for OutputList {
     }
 }
 
-/// The body of the first character reference (`&#N;` or `&#xN;`) in character data or a
-/// start tag that does not name an XML 1.0 character. Such a reference is not well-formed,
-/// and content that is copied to the output as written would carry it along.
-fn invalid_char_ref(s: &str) -> Option<String> {
+/// The first `&` in character data or a start tag that does not begin a well-formed
+/// reference: `&name;` for one of the five predefined entities (any name once a DOCTYPE,
+/// which may declare it, has been seen), or `&#N;` / `&#xN;` naming an XML 1.0 character.
+/// Anything else is not well-formed, and content that is copied to the output as written
+/// would carry it along.
+fn invalid_reference(s: &str, has_doctype: bool) -> Option<String> {
     let mut rest = s;
-    while let Some(pos) = rest.find("&#") {
-        rest = &rest[pos + 2..];
-        let end = rest.find(';')?;
-        let body = &rest[..end];
-        let code = match body.strip_prefix('x') {
-            Some(hex) => u32::from_str_radix(hex, 16),
-            None => body.parse::<u32>(),
+    while let Some(pos) = rest.find('&') {
+        rest = &rest[pos + 1..];
+        let Some(end) = rest.find(';') else {
+            return Some(format!("&{}", rest.chars().take(12).collect::<String>()));
         };
-        let is_xml_char = matches!(
-            code,
-            Ok(0x9 | 0xA | 0xD | 0x20..=0xD7FF | 0xE000..=0xFFFD | 0x10000..=0x10FFFF)
-        );
-        if !is_xml_char {
-            return Some(body.to_string());
+        let body = &rest[..end];
+        let well_formed = if let Some(num) = body.strip_prefix('#') {
+            let code = match num.strip_prefix('x') {
+                Some(hex) if hex.bytes().all(|b| b.is_ascii_hexdigit()) => {
+                    u32::from_str_radix(hex, 16).ok()
+                }
+                None if num.bytes().all(|b| b.is_ascii_digit()) => num.parse::<u32>().ok(),
+                _ => None,
+            };
+            matches!(
+                code,
+                Some(0x9 | 0xA | 0xD | 0x20..=0xD7FF | 0xE000..=0xFFFD | 0x10000..=0x10FFFF)
+            )
+        } else {
+            matches!(body, "lt" | "gt" | "amp" | "apos" | "quot")
+                || (has_doctype && is_entity_name(body))
+        };
+        if !well_formed {
+            return Some(format!("&{body};"));
         }
     }
     None
+}
+
+/// `Name` of XML 1.0 (fifth edition).
+fn is_entity_name(s: &str) -> bool {
+    let start = |c: char| {
+        matches!(c,
+            ':' | 'A'..='Z' | '_' | 'a'..='z'
+            | '\u{C0}'..='\u{D6}' | '\u{D8}'..='\u{F6}' | '\u{F8}'..='\u{2FF}'
+            | '\u{370}'..='\u{37D}' | '\u{37F}'..='\u{1FFF}' | '\u{200C}'..='\u{200D}'
+            | '\u{2070}'..='\u{218F}' | '\u{2C00}'..='\u{2FEF}' | '\u{3001}'..='\u{D7FF}'
+            | '\u{F900}'..='\u{FDCF}' | '\u{FDF0}'..='\u{FFFD}' | '\u{10000}'..='\u{EFFFF}')
+    };
+    let mut chars = s.chars();
+    chars.next().is_some_and(start)
+        && chars.all(|c| {
+            start(c)
+                || matches!(c, '-' | '.' | '0'..='9' | '\u{B7}' | '\u{300}'..='\u{36F}' | '\u{203F}'..='\u{2040}')
+        })
 }
 
 /// XML 1.0 has no way to write the C0 control characters other than tab, LF and CR, nor
